@@ -11,7 +11,8 @@ sys.stderr = open(os.devnull, 'w')
 
 from harness import rdrv  # noqa: E402
 
-ACT = {'ok': None, 't4': 450, 'p5': 550, 'e500': 500, 'bad': 'malformed', 'drop': 'disconnect', 'stall': 'stall'}
+ACT = {'ok': None, 't4': 450, 'p5': 550, 'e500': 500, 'bad': 'malformed', 'drop': 'disconnect', 'stall': 'stall',
+       'ok2': 250, 'fail': 'tlsfail'}
 
 
 TX = ('mail', 'rcpt', 'data', 'eod', 'rset')
@@ -36,6 +37,8 @@ def script_of(hist, lmtp, nr):
             script.setdefault('eod', [{} for _ in range(nr)])[i - 1][m - 1] = act
         elif s in TX:
             script.setdefault(s, {})[m - 1] = act
+        elif s in ('ehlo', 'helo'):          # per round: before / after STARTTLS
+            script.setdefault(s, [None, None])[i] = act
         else:
             script[s] = act
     return script, connect
@@ -47,13 +50,18 @@ def conversation(ev, lmtp):
         if e['t'] == 'conn' and e['what'] == 'open':
             out.append(['conn', 0, {'ok': 'ok', 'refuse': 'drop', 'stall': 'stall'}[e.get('act') or 'ok']])
         elif e['t'] == 'peer':
+            if e['act'] == 'noauth':
+                continue
+            stage = 'starttls' if e['stage'] == 'starttls_opt' else e['stage']
             if e['act'] == 'code':
                 c = e['code'] // 100
-                a = 'ok' if c in (2, 3) else 't4' if c == 4 else ('e500' if e['stage'] == 'ehlo' and e['code'] == 500 else 'p5')
+                a = 'ok' if c in (2, 3) else 't4' if c == 4 else ('e500' if stage == 'ehlo' and e['code'] == 500 else 'p5')
+                if stage == 'starttls' and c == 2 and e['code'] != 220:
+                    a = 'ok2'
             else:
-                a = {'malformed': 'bad', 'disconnect': 'drop', 'stall': 'stall'}[e['act']]
-            i = e['i'] + 1 if e['stage'] == 'rcpt' or (e['stage'] == 'eod' and lmtp) else 0
-            out.append([e['stage'], i, a])
+                a = {'malformed': 'bad', 'disconnect': 'drop', 'stall': 'stall', 'tlsfail': 'fail'}[e['act']]
+            i = e['i'] + 1 if stage == 'rcpt' or (stage == 'eod' and lmtp) else e['i'] if stage in ('ehlo', 'helo') else 0
+            out.append([stage, i, a])
     return out
 
 
@@ -77,7 +85,11 @@ def main():
             hist = [tuple(h) for h in b['hist']]
             preds = b['results']
             script, connect = script_of(hist, lmtp, nr)
-            r = rdrv.RelayRun(lmtp, pipe, [script], connect=connect, idle_timeout=5 if st.get('nmsg', 1) > 1 else None)
+            hs = st.get('hs') or {}
+            tls, peertls = hs.get('tls', 'off'), hs.get('peertls', False)
+            starttls = ('required' if peertls else 'required-unoffered') if tls == 'req' else ('optional' if peertls and tls == 'off' else None)
+            r = rdrv.RelayRun(lmtp, pipe, [script], connect=connect, idle_timeout=5 if st.get('nmsg', 1) > 1 else None,
+                              auth=hs.get('peerauth', False), creds=hs.get('creds', False), starttls=starttls, imm=tls == 'imm')
             for req in range(1, len(preds) + 1):
                 r.attempt(req, nr)
                 r.settle()
@@ -110,7 +122,8 @@ def main():
                 cfg.update({'pool_size': 0, 'idle': 5, 'maxconn': max(8, r.nconn), 'sched': 'model'})
             if d_res or d_conv:
                 cfg['model'] = json.dumps({'hist': b['hist'], 'result': pred, 'got': got, 'conv': conv})
-            f.write(json.dumps({'id': shard + n * nshards, 'cls': 'model-' + ('lmtp' if lmtp else 'smtp') + ('-pipelining' if pipe else '') + ('-reuse' if st.get('nmsg', 1) > 1 else ''),
+            f.write(json.dumps({'id': shard + n * nshards, 'cls': 'model-' + ('lmtp' if lmtp else 'smtp') + ('-pipelining' if pipe else '') + ('-reuse' if st.get('nmsg', 1) > 1 else '')
+                                + ('-hs' if hs else ''),
                                 'cfg': cfg, 'ev': ev}, separators=(',', ':')) + '\n')
             n += 1
     f.write(json.dumps({'summary': stats}) + '\n')
